@@ -1894,3 +1894,62 @@ Lemma auto_first_reader_refuted :
   read_args false (e_specs (reader_entry_auto_first strtol_opts)) ([10; 0; 0; 0; 0; 0; 0; 0] ++ next_rec) <>
     Some ([10; 0; 0; 0], next_rec).
 Proof. vm_compute. repeat split; try reflexivity. discriminate. Qed.
+
+(* ------------------------------------------------------------------ a call that is closed without a return value *)
+(* exception unwinding, pthread_exit and --estimate-return close a frame through mcount_exit_filter_record(.., NULL):
+   there are no return registers to read.  record_trace_data then drops MCOUNT_FL_RETVAL before it writes the EXIT
+   record.  In the model: the `more` bit of the EXIT record is set iff a return value was captured - the function
+   has a return value spec, the exit hook was handed the return registers, and save_retval produced a payload *)
+Theorem exit_more_iff_captured : forall bg fill inp specs has_ret captured t depth addr,
+  depth < 1024 -> addr < 2 ^ 48 ->
+  let w := of_le (takeN 8 (dropN 8 (exit_rec bg fill inp specs has_ret captured t depth addr))) in
+  (w / 4) mod 2 = 1 <-> (has_ret = true /\ captured = true /\ payload (run fill inp true specs) <> None).
+Proof.
+  intros bg fill inp specs has_ret captured t depth addr Hd Ha. cbv zeta.
+  unfold exit_rec, enc_rec.
+  rewrite (dropN_app_exact (le_bytes 8 t)) by reflexivity.
+  rewrite (takeN_app_exact (le_bytes 8 _)) by reflexivity.
+  rewrite of_le_le_bytes. change (256 ^ N.of_nat 8) with (2 ^ 64).
+  set (more := match exit_payload has_ret captured (run fill inp true specs) with Some _ => 1 | None => 0 end).
+  assert (Hm : more < 2) by (unfold more; destruct (exit_payload _ _ _); lia).
+  assert (Hty : UFTRACE_EXIT < 4) by (unfold UFTRACE_EXIT; lia).
+  destruct (rec_word_fields UFTRACE_EXIT more depth addr Hty Hm Hd Ha) as (Hw & _ & F2 & _).
+  rewrite (N.mod_small _ _ Hw), F2.
+  unfold more, exit_payload.
+  destruct has_ret, captured; cbn [andb];
+    try (split; [intro H; discriminate H | intros (H1 & H2 & _); discriminate]).
+  destruct (payload (run fill inp true specs)).
+  - split; [intros _; repeat split; discriminate | reflexivity].
+  - split; [intro H; discriminate H | intros (_ & _ & H); congruence].
+Qed.
+
+(* ... and the reader, which goes by that bit alone, takes nothing from the stream for such a record: the call is
+   shown without a return value and the next record is found where it starts (whatever specs the function has) *)
+Theorem abandoned_exit_decodes : forall k specs_of bg fill inp has_ret t depth addr rest,
+  t < 2 ^ 64 -> depth < 1024 -> addr < 2 ^ 48 ->
+  decode_stream (S k) specs_of (exit_rec bg fill inp (specs_of addr) has_ret false t depth addr ++ rest) =
+  {| d_time := t; d_type := UFTRACE_EXIT; d_depth := depth; d_addr := addr; d_args := None |}
+    :: decode_stream k specs_of rest.
+Proof.
+  intros k specs_of bg fill inp has_ret t depth addr rest Ht Hd Ha.
+  unfold exit_rec, exit_payload. rewrite andb_false_r. unfold enc_rec. rewrite <- !app_assoc.
+  rewrite decode_header by (try assumption; unfold UFTRACE_EXIT; lia). reflexivity.
+Qed.
+
+(* `check(3, 100)` throws (-A check@arg1/i64,arg2/i64 -R check@retval/i64).  Its argument buffer still holds the
+   two arguments when the unwinder closes the frame.  A writer that keeps MCOUNT_FL_RETVAL there sends that stale
+   buffer with the `more` bit set: the reader takes 8 bytes of it for the return value - the call is shown as
+   `check(3, 100) = 3` - and looks for the next record 8 bytes early, where there is no record *)
+Definition chk_specs : list spec := [Sp 1 FSint 8 TIndex 0; Sp 2 FSint 8 TIndex 0; Sp 0 FSint 8 TIndex 0].
+Definition chk_inp : inputs :=
+  {| regs := [3; 100; 0; 0; 0; 0]; xmm := []; stk := []; rets := [0; 0]; strs := []; wrds := [] |}.
+Lemma stale_retval_refuted :
+  let stale := payload (run 0 chk_inp false chk_specs) in
+  stale = Some (le_bytes 8 3 ++ le_bytes 8 100) /\
+  decode_stream 2 (fun _ => chk_specs) (exit_rec 0 0 chk_inp chk_specs true false 1000 1 0x401000 ++ next_rec) =
+    [ {| d_time := 1000; d_type := UFTRACE_EXIT; d_depth := 1; d_addr := 0x401000; d_args := None |};
+      {| d_time := 2000; d_type := UFTRACE_ENTRY; d_depth := 1; d_addr := 0x401000; d_args := None |} ] /\
+  decode_stream 2 (fun _ => chk_specs) (enc_rec 0 1000 UFTRACE_EXIT 1 0x401000 stale ++ next_rec) =
+    [ {| d_time := 1000; d_type := UFTRACE_EXIT; d_depth := 1; d_addr := 0x401000; d_args := Some (le_bytes 8 3) |} ] /\
+  show_ret [] chk_specs (Some (le_bytes 8 3)) = [32; 61; 32; 51; 59].
+Proof. vm_compute. repeat split; reflexivity. Qed.
